@@ -13,7 +13,7 @@ from ..canon import chash
 ID = "C18"
 LEVEL = "exploration"
 NEEDS_STUBS = True
-RULE = ("initial states drawn from merge.tool x diff.guitool in {unset, nbdime, meld}, difftool.prompt x mergetool.prompt in {unset, true, "
+RULE = ("initial states drawn from merge.tool x diff.guitool in {unset, nbdime, meld} in the scope under test and, independently, in the other scope, difftool.prompt x mergetool.prompt in {unset, true, "
         "false}, unrelated keys, attributes file in {absent, unrelated rules with/without final newline, already nbdime's lines, "
         "'*.ipynb diff=other'}, scope in {repository, global (scratch HOME / XDG_CONFIG_HOME, sometimes core.attributesfile)}; then every "
         "sequence of up to 3 real commands from {nbdime config-git, git-nbdiffdriver|git-nbmergedriver|git-nbdifftool|git-nbmergetool "
@@ -91,6 +91,12 @@ class World:
                          ("difftool.prompt", st["difftool.prompt"]), ("mergetool.prompt", st["mergetool.prompt"])):
             if val is not None:
                 self.git("config", *sflag, key, val)
+        # the OTHER scope has its own defaults (a repository-local value shadows the global one in plain `git config key`)
+        oflag = ["--local"] if self.scope == "global" else ["--global"]
+        for key in ("merge.tool", "diff.guitool"):
+            val = st.get("other:" + key)
+            if val is not None:
+                self.git("config", *oflag, key, val)
         if self.scope == "global" and st.get("custom_attributesfile"):
             self.custom_attr = os.path.join(self.home, "my attrs", "gitattributes")
             self.git("config", "--global", "core.attributesfile", self.custom_attr)
@@ -241,7 +247,8 @@ def run_shard(spec):
             st = {"merge.tool": r.choice(tools3), "diff.guitool": r.choice(tools3), "difftool.prompt": r.choice([None, "true", "false"]),
                   "mergetool.prompt": r.choice([None, "true", "false"]),
                   "attributes": r.choice(["absent", "unrelated", "unrelated_nonl", "already", "other_driver"]),
-                  "custom_attributesfile": r.random() < 0.25}
+                  "custom_attributesfile": r.random() < 0.25,
+                  "other:merge.tool": r.choice(tools3), "other:diff.guitool": r.choice(tools3)}
             states.append((r.choice(["repository", "global"]), st))
         seqs = None
     for scope, st in states:
